@@ -9,6 +9,7 @@ TRUSTED_BASE = [
     "hand-written timed model coq/Model/Pipe.v of pipe.rs (SimplexPipe::exchange, DuplexPipe::exchange/exchange_once)",
     "translator tools/gen_tables.py: structural facts of pipe.rs (PipeFacts.v): order write->metrics->consume->stash, eof->flush, pending taken after wait_writable, awaits under tokio timeout, try_select outcome mapping",
     "extraction + driver.ml, cross-checked against vm_compute; harness door verif::pipe (mirror traits, the real DuplexPipe::exchange) with scripted endpoints under tokio's paused clock",
+    "the real endpoint (Core::listen on loopback) with real HTTP/1.1-TLS, HTTP/2-TLS and HTTP/3-QUIC clients and a scripted destination: the ends of a tunnel (either direction first, a destination that resets, a client that fails); whether the endpoint still holds its connection to the destination is read from /proc/net/tcp",
 ]
 ASSUMPTIONS = [
     "Source::read is cancel safe (an abandoned read loses nothing): assumed of h2 RecvStream::data, quiche and mpsc::recv, satisfied by the scripted sources",
@@ -17,7 +18,10 @@ ASSUMPTIONS = [
 ]
 RULE = ("two independent scripts (client->peer, peer->client): 0..8 chunks with arrival gaps, partial acceptance patterns (0, 1, half, all-but-one, all) "
         "with writable-again delays, ending in EOF (+flush ok / error / never), idleness, read error, write error, wait error, eof error; "
-        "non-trivial = at least one chunk is partially accepted or an error / EOF occurs; distinct = distinct script")
+        "non-trivial = at least one chunk is partially accepted or an error / EOF occurs; distinct = distinct script; "
+        "through the real endpoint, per transport: echo tunnels of 0..1000000 bytes; the ends of a tunnel: the client ends first and the destination answers afterwards, the destination ends first and the client "
+        "uploads afterwards, both at once (all bytes and a clean end on both sides), the destination resets its connection after M bytes (the client must see a failure, not an end of stream), "
+        "the client's connection / stream is reset (the endpoint must let go of the destination)")
 
 
 def gen_cases(rng, ctx):
@@ -42,10 +46,79 @@ def gen_cases(rng, ctx):
             li = line("c02_front", [[proto, total, w, slow]])
             cases.append(Case(li, None, kind="endpoint:tunnel-h%d" % proto, nontrivial=total > 0,
                               meta={"front": True, "proto": proto, "total": total, "w": w, "slow": slow}))
+    # how tunnels end, through the real endpoint: [proto, scenario, N uploaded, M sent by the destination] (scenarios: harness/src/engines/c02e.rs)
+    ends = []
+    for proto in (1, 2, 3):
+        for scen in (0, 1, 2):
+            ends.append((proto, scen, 50000, 30000))
+            if thorough:
+                ends += [(proto, scen, 1, 1), (proto, scen, 300000, 200000), (proto, scen, 70000, 0) if scen != 1 else (proto, scen, 0, 70000)]
+        ends.append((proto, 3, 0, 5000))
+        ends.append((proto, 4, 5000, 0))
+        if thorough:
+            ends += [(proto, 3, 1000, 100000), (proto, 4, 100000, 0)]
+    for proto, scen, n, m in ends:
+        li = line("c02_ends", [[proto, scen, n, m]])
+        cases.append(Case(li, None, kind="endpoint:ends-h%d-%s" % (proto, ENDS[scen][0]), nontrivial=True,
+                          meta={"ends": True, "proto": proto, "scen": scen, "n": n, "m": m}))
     return cases
 
 
 RETRY_PREFIX = "endpoint:"
+
+ENDS = {
+    0: ("client-first", "the client uploads %(n)d bytes and ends its stream, the destination reads to the end, then sends %(m)d bytes and ends"),
+    1: ("destination-first", "the destination sends %(m)d bytes and ends, the client reads to the end, then uploads %(n)d bytes and ends"),
+    2: ("both-at-once", "the client uploads %(n)d bytes and ends while the destination sends %(m)d bytes and ends"),
+    3: ("destination-reset", "the destination sends %(m)d bytes and then resets its connection (RST)"),
+    4: ("client-reset", "the client uploads %(n)d bytes and then fails (HTTP/1.1, HTTP/2: its TCP connection is reset; HTTP/3: RESET_STREAM), the destination keeps its side open"),
+}
+
+
+def known_finding(case, kind, msg, known):
+    # HTTP/1.1 over TLS: the codec ends the whole session at the first end of stream from either side
+    if case.meta.get("ends") and case.meta["proto"] == 1 and case.meta["scen"] in (0, 1, 2) and kind == "violation":
+        for k in known.get("findings", []):
+            if k["property"] == "C02" and k["id"] == "http1-tunnel-has-no-half-close":
+                return k["id"]
+    return None
+
+
+def judge_ends(case, impl, ctx):
+    """Direct oracle, from the property text: every byte in order both ways whatever the order in which the directions end, a clean end
+    for both peers once both directions have ended; a failure of either side tears the tunnel down: it neither looks like an end of
+    stream to the other peer nor leaves the other direction standing."""
+    m = case.meta
+    status, up_got, up_same, up_end, down_got, down_same, down_end, released, waited = untok(impl.split()[0])
+    what = "HTTP/%s tunnel through the real endpoint, %s" % ({1: "1.1", 2: "2", 3: "3"}[m["proto"]], ENDS[m["scen"]][1] % m)
+    if status != 200:
+        return [("disagree", "%s: CONNECT answered %d" % (what, status))]
+    if not up_same:
+        return [("violation", "%s: the %d bytes the destination received are not the first bytes the client sent" % (what, up_got))]
+    if not down_same:
+        return [("violation", "%s: the %d bytes the client received are not the first bytes the destination sent" % (what, down_got))]
+    ends = {0: "no end within 10 s", 1: "a clean end of stream", 2: "a failure"}
+    if m["scen"] in (0, 1, 2):
+        if up_got != m["n"] or up_end != 1:
+            return [("violation", "%s: the destination received %d of the %d bytes, then %s" % (what, up_got, m["n"], ends[up_end]))]
+        if down_got != m["m"] or down_end != 1:
+            return [("violation", "%s: the client received %d of the %d bytes, then %s" % (what, down_got, m["m"], ends[down_end]))]
+        return []
+    if m["scen"] == 3:
+        if down_end == 1:
+            return [("violation", "%s: the client received %d bytes and then a clean end of stream: the destination's failure is passed on as if the destination had finished" % (what, down_got))]
+        if down_end == 0:
+            return [("violation", "%s: the client received %d bytes and then neither an end nor a failure within 10 s" % (what, down_got))]
+        return []
+    if up_got != m["n"]:
+        return [("disagree", "%s: %d bytes reached the destination before the client failed" % (what, up_got))]
+    if released == 2:
+        ctx.setdefault("skipped_env", []).append(case.kind)
+        return []
+    if released == 0:
+        return [("violation", "%s: %d ms after the client failed the endpoint still holds its connection to the destination open (the destination saw %s): the tunnel is not torn down"
+                 % (what, waited, ends[up_end] if up_end else "nothing"))]
+    return []
 
 
 def expected_total(reads):
@@ -55,6 +128,13 @@ def expected_total(reads):
 def judge(case, impl, model, spec, ctx):
     if impl == "999":
         return [("violation", "the pipe panicked")]
+    if case.meta.get("ends"):
+        if impl == "996":
+            ctx.setdefault("skipped_env", []).append(case.kind)
+            return []
+        if impl == "995":
+            return [("violation", "HTTP/%s tunnel through the real endpoint, %s: the scenario did not come to an end (watchdog)" % ({1: "1.1", 2: "2", 3: "3"}[case.meta["proto"]], ENDS[case.meta["scen"]][1] % case.meta))]
+        return judge_ends(case, impl, ctx)
     if case.meta.get("front"):
         if impl == "996":
             ctx.setdefault("skipped_env", []).append(case.kind)
